@@ -62,13 +62,25 @@ func lokiSink(name string, cfg hx.Sx) *sink {
 	if err := json.Unmarshal(hx.Bytes(hx.Items(cfg)[0]), &labels); err != nil {
 		panic("c19: loki labels: " + err.Error())
 	}
-	c := &lokiout.Config{
+	ap, ac := lokiout.Factory()
+	c := ac.(*lokiout.Config)
+	*c = lokiout.Config{
 		Address:        server(),
 		MessageField:   lokiMsgField,
 		TimestampField: lokiTsField,
 		WorkersCount:   "1",
 		BatchSize:      "1024", BatchSizeBytes: fdcfg.Expression(strconv.Itoa(lokiFlush)), BatchFlushTimeout: "100h",
 		Retention: "1ms", Retry: 1,
+	}
+	// the authorisation options only add request headers (the body must not depend on them): spread over
+	// the configurations by the length of the labels text
+	switch len(hx.Bytes(hx.Items(cfg)[0])) % 4 {
+	case 1:
+		c.Auth = lokiout.AuthConfig{Strategy: "tenant", TenantID: "verif-tenant"}
+	case 2:
+		c.Auth = lokiout.AuthConfig{Strategy: "basic", Username: "verif", Password: "secret"}
+	case 3:
+		c.Auth = lokiout.AuthConfig{Strategy: "bearer", BearerToken: "verif-token"}
 	}
 	for _, k := range hx.SortedKeys(labels) {
 		c.Labels = append(c.Labels, lokiout.Label{Label: k, Value: labels[k]})
@@ -81,7 +93,7 @@ func lokiSink(name string, cfg hx.Sx) *sink {
 		PluginStaticInfo:  &pipeline.PluginStaticInfo{Type: "verif-dead"},
 		PluginRuntimeInfo: &pipeline.PluginRuntimeInfo{Plugin: &lokiDead{log: log}, ID: "verif-dead"},
 	})
-	p := &lokiout.Plugin{}
+	p := ap.(*lokiout.Plugin)
 	p.Start(c, pr)
 	return &sink{stop: p.Stop, run: func(evs []*pipeline.Event) []hx.Sx {
 		if len(evs) == 0 {
